@@ -25,25 +25,25 @@ META = {
                   "model of gogenproto/gen/generate.go produces one protoc argument vector = plugin flags (each "
                   "output flag once iff requested) ++ -I/M options ++ files: the files are exactly the regular "
                   ".proto directly inside the input directory (all descendants with -recurse), each once; the -I "
-                  "options are the input directory and the include directories; on trees where the line scan of "
-                  "protoFileHasGoPackage is right about every proto (a predicate on file contents) every requested "
-                  "plugin, and no other, gets exactly the mappings {relative path -> Join(prefix, relative "
-                  "directory) | the directory's Go package} of the protos that do not declare option go_package. "
-                  "Without that predicate the mapping clause is refuted (C20_full_refuted; open findings "
-                  "C20-scan-*): the scan is a substring test (C20_scan_is_substring_test), right on the canonical "
-                  "spelling (C20_scan_right_on_canonical), wrong on commented-out / quoted / space-less / "
-                  "multi-line spellings. Props/C20.v, 22 theorems, closed under the global context. Tie to the "
+                  "options are the input directory and the include directories; every requested plugin, and no "
+                  "other, gets exactly the mappings {relative path -> Join(prefix, relative directory) | the "
+                  "directory's Go package} of the protos that do not declare option go_package (C20_full) — "
+                  "'declares' by the lexical structure of the file content, which the byte scanner of "
+                  "protoFileHasGoPackage decides correctly for every content (C20_scan_correct; the former "
+                  "substring scan and the cut of the input directory at '=' were defects, repaired by b058b67 and "
+                  "507c907, kept as _orig definitions with their refutations). Props/C20.v, 24 theorems, closed "
+                  "under the global context. Tie to the "
                   "source: (T) harness/cmd/xlate_proto + coq/ties/Tie_C20.v (gen_Run = s_run etc., semantic, "
-                  "re-proved on every check), (P) ProtoRefine.v s_argv = rendering of run for Clean input "
-                  "spellings, (C) the real CLI with a recording protoc stub on generated Go modules, judged in "
-                  "the kernel against specification, structured model and string-level model.",
+                  "re-proved on every check; the byte scanner itself is not translated but tied by an exhaustive "
+                  "scan stream over generated contents), (P) ProtoRefine.v s_argv = rendering of run for Clean "
+                  "input spellings, (C) the real CLI with a recording protoc stub on generated Go modules, judged "
+                  "in the kernel against specification, structured model and string-level model.",
     "level_note": "Trusted: Coq kernel + vm_compute; ProtoPath.v/ProtoPrims.v as models of path/filepath, "
                   "strings, WalkDir order and SkipDir semantics, os.ReadDir order, bufio.ScanLines (checked "
                   "literally against every recorded argv); the lexer of ProtoLex.v as the meaning of 'declares "
                   "option go_package'; module path + relative directory as the package oracle "
                   "(PackageNameFromPath and go list cross-checked against it); the translator, Go harness, stub "
-                  "and the argv parser in ProtoJudge.v. No axioms. Open findings: C20-scan-says-declared, "
-                  "C20-scan-misses-declaration, C20-scan-both, C20-input-dir-equals.",
+                  "and the argv parser in ProtoJudge.v. No axioms. No open finding (four fixed: b058b67, 507c907).",
 }
 
 MIN_BUDGET = 55      # seconds of delta debugging per quick run (all reported cases together)
@@ -52,10 +52,12 @@ TRUSTED = [
     "Coq 8.16.1 kernel and VM (vm_compute); no native_compute; no axioms",
     "coq/theories/ProtoPath.v + ProtoPrims.v: string-level models of strings.Cut/SplitN/Contains/Index/HasSuffix, "
     "filepath.Clean/Join/Abs/Rel/Dir/Ext, filepath.WalkDir (visiting order, SkipDir semantics), os.ReadDir order, "
-    "os.Lstat/Open, bufio.ScanLines, os/exec passing argv unchanged — every recorded argv is compared literally with "
+    "os.Lstat/Open, os/exec passing argv unchanged — every recorded argv is compared literally with "
     "the string-level model built from them (coverage key exact_argv_equal_to_string_level_model)",
     "harness/cmd/xlate_proto (go/parser -> Gallina; subset and the 'directory walk by hand' rule in its header) — "
-    "an edit that changes the meaning or leaves the subset breaks coq/ties/Tie_C20.v",
+    "an edit that changes the meaning or leaves the subset breaks coq/ties/Tie_C20.v; the byte scanner "
+    "declaresGoPackage is not translated: ProtoLex.scan_go_package is its hand model, tied by the scan stream "
+    "(exhaustive short fragment sequences, fragments in every gap of a declaration, random longer ones)",
     "coq/theories/ProtoLex.v lex / declares_go_package as the meaning of 'declares option go_package' (protobuf "
     "lexical structure: white space, // and /* */ comments, string literals, identifiers, punctuation)",
     "the Go package of a directory = module path + relative directory (given to model and spec as the oracle); "
@@ -237,15 +239,14 @@ def run(ctx):
         "the input directory and every include directory exist and are directories (theorem hypothesis dirs_ok; "
         "other inputs are run and judged too, and counted)",
         "PackageNameFromPath succeeds for every directory holding a mapped proto (trees live in a Go module)",
-        "mapping clause: the line scan is right about every *.proto of the tree (tree_agreesb, evaluated per case); "
-        "where it is not, the clause is false of the code (Props/C20.v C20_full_refuted; known findings C20-scan-*)",
-        "no line of a proto file is 64 KiB or longer (bufio.Scanner would stop there)",
+        "a proto file is read completely or not at all (no read error in the middle of a file)",
     ]
     quick = ctx.tier == "quick"
     # reports without a concrete failing input are held back: failing inputs come first and get
     # the replay slots; a `no-failing-input-found` line is printed only if a widened run finds none
     held = []
-    pool = concurrent.futures.ThreadPoolExecutor(max_workers=3)
+    pool = concurrent.futures.ThreadPoolExecutor(max_workers=4)
+    ctx.add_repo_file("gogenproto/gen/export_verif.go", pl.EXPORT_VERIF)
     obl_future = pool.submit(ctx.proof_obligations)
     ctx.harness_module()        # created once, before the parallel builds use it
     tie_future = pool.submit(ctx.translator_tie, "xlate_proto", ["-repo", ctx.copy_repo()], "ProtoGen", "Tie_C20")
@@ -278,6 +279,7 @@ def run(ctx):
                 ("random", ["-mode", "random", "-n", 400, "-flagsets", 8]),
                 ("edge", ["-mode", "edge", "-n", 250, "-flagsets", 8])]
     ood_future = pool.submit(ood_stream, ctx, tools, quick)
+    scan_future = pool.submit(pl.scan_stream, ctx, tools, quick)
     terms, jsons, err = streams(ctx, tools, plan)
     infos = None
     if not err:
@@ -291,7 +293,21 @@ def run(ctx):
                                    "(gogenproto/gen/generate.go no longer means what ProtoStrModel.v says, or left "
                                    "the translator's subset)", "detail": tie_detail[-3000:]}, {"kind": "translator_tie"}))
     ood = ood_future.result()
+    scan_bad, scan_n, scan_decl, scan_err = scan_future.result()
     pool.shutdown()
+    ctx.log("scan stream (protoFileHasGoPackage alone): %d contents, %d declare the option, %d disagreement(s)%s"
+            % (scan_n, scan_decl, len(scan_bad), " — " + scan_err if scan_err else ""))
+    if scan_err and not err:
+        err = "scan stream: " + scan_err
+    # the byte scanner disagrees with the specification / its model on a content: a failing input of its own
+    scan_bad.sort(key=lambda x: (len(x[0]["scan_content"]), x[0]["scan_content"]))
+    for sj, code in scan_bad[:3]:
+        ctx.report({"scan_content": sj["scan_content"], "returned": sj["got"], "error": sj.get("err"),
+                    "verdict": "protoFileHasGoPackage on a file with this content " +
+                               ("disagrees with `declares option go_package` (token structure of the content)"
+                                if code == 1 else "agrees with the specification but not with the model scan_go_package"),
+                    "replay_cmd": "./check C20 --replay <this file>"},
+                   {"kind": "scan", "declared_by_code": sj["got"]}, failing_input=(code == 1))
     if err:
         for rep, feat in held:
             ctx.report(rep, feat, failing_input=False)
@@ -424,6 +440,10 @@ def run(ctx):
             len(d) for d in {json.dumps(j["oracle_package_name_from_path"], sort_keys=True): j["oracle_package_name_from_path"]
                              for j in jsons if j.get("oracle_package_name_from_path")}.values()),
         "known_cause_failing_inputs": hist(json.dumps(c, sort_keys=True) for c in causes.values()),
+        "scan_stream": {"contents": scan_n, "declaring": scan_decl, "disagreements": len(scan_bad),
+                        "what": "protoFileHasGoPackage alone on files holding every sequence of up to %d of %d source "
+                                "fragments, a declaration with every fragment / pair of fragments in each of its 6 gaps, "
+                                "random longer sequences and the generator's whole files" % (2 if quick else 3, 22)},
         "widened_search": widened,
         "oracle_mismatches": len(obad),
         "out_of_domain_informational": ood,
@@ -441,6 +461,27 @@ def replay(ctx, path):
     """re-run the recorded case description on the current tree and judge it again"""
     rep = json.load(open(path))
     case = rep.get("case", rep)
+    if "scan_content" in rep:
+        ctx.add_repo_file("gogenproto/gen/export_verif.go", pl.EXPORT_VERIF)
+        tools, log = pl.build_tools(ctx)
+        if not tools:
+            print(log)
+            return 2
+        import tempfile
+        d = tempfile.mkdtemp(prefix="c20scan-")
+        p = os.path.join(d, "f.proto")
+        with open(p, "w", newline="") as f:
+            f.write(rep["scan_content"])
+        rc, out = vlib.sh([tools["harness"], "-scanfile", p], env=vlib.go_env())
+        print("content: %r\nprotoFileHasGoPackage: %s" % (rep["scan_content"], out.strip()))
+        import shutil
+        shutil.rmtree(d, ignore_errors=True)
+        want = "true" if not rep.get("returned") else "false"
+        if out.strip().startswith(want):
+            print("REPLAY: passes on the current tree (the answer changed)")
+            return 0
+        print("REPLAY: still failing")
+        return 1
     if "spec" not in case:
         print(json.dumps(rep, indent=1))
         return 0
